@@ -10,4 +10,5 @@ Extraction "c09_model.ml"
   ids_check edges_fwd_check edges_bwd_check groups_fwd_check groups_bwd_check parents_check
   clocks_fwd_check clocks_bwd_check types_check node_okb
   kind_req mkGraph mkNode mkOut mkGroup mkCt
-  drv cons otype grp_of members clk_of clocked.
+  drv cons otype grp_of members clk_of clocked
+  wfd_check invd_check drivers_check drivers_fwd_check drivers_bwd_check clkdrv rstdrv role_of keys_eqb.
